@@ -78,6 +78,9 @@ pub struct Stats {
     pub faults: BTreeMap<String, u64>,
     /// rare-branch probes
     pub probes: BTreeMap<String, u64>,
+    /// measured maxima (merged by max)
+    #[serde(default)]
+    pub maxima: BTreeMap<String, u64>,
     pub interleavings: CapSet,
     pub states: CapSet,
     /// signatures of distinct non-trivial cases
@@ -122,6 +125,10 @@ impl Stats {
         }
         for (k, v) in o.probes {
             *self.probes.entry(k).or_insert(0) += v;
+        }
+        for (k, v) in o.maxima {
+            let e = self.maxima.entry(k).or_insert(0);
+            *e = (*e).max(v);
         }
         self.interleavings.absorb(o.interleavings);
         self.states.absorb(o.states);
